@@ -3,7 +3,7 @@ CONSTANTS
   DefaultN = 1000
   Fuel = 10
   Tier = "quick"
-  SampleMod = 20
+  SampleMod = 24
 INVARIANTS PagingLossless PrefixDelivered OnlyListed NoDuplicates Ascending StrictlyAfterStart ErrorOnlyWithCause DeclinedAtK BoundedRequests Reiterable ClosedFormAgrees Emit
 PROPERTIES StopsWhenDeclined Terminates
 CHECK_DEADLOCK FALSE
